@@ -9,7 +9,9 @@ Trace == ndJsonDeserialize(IOEnv.VERIF_TRACE)
 StepOk(kind, s, st) ==
   /\ st.pan = "" /\ ~st.timeout
   /\ IF st.fn = "SendPar" THEN ParOk(kind, s, st, st.rets, st.dlv)
-     ELSE LET r == PStep(kind, s, st) IN st.ret = r.ret /\ st.dlv = r.dlv
+     ELSE LET r == PStep(kind, s, st) IN
+          IF st.fn = "BurstStop" THEN st.ret = r.ret /\ IsPrefix(st.dlv, r.dlv)     \* stop may overtake deliveries, never the reverse
+          ELSE st.ret = r.ret /\ st.dlv = r.dlv
 
 Judge(e) ==
   LET r == FoldLeft(LAMBDA acc, st :
